@@ -58,6 +58,13 @@ func isDataWire(m []byte) bool {
 	return bytes.HasPrefix(m, []byte("?OTR:AAMD")) || bytes.HasPrefix(m, []byte("?OTR:AAID"))
 }
 
+func flagStr(wire []byte) string {
+	if f, ok := otr3.VerifDataFlag(wire); ok {
+		return fmt.Sprintf("%#02x", f)
+	}
+	return "?"
+}
+
 // reassemble the wire messages of one Send/Receive result into whole encoded messages
 // (fragments are "<prefix>,<ix>,<total>,<data>," for both header formats)
 func reassembleAll(ms []otr3.ValidMessage) [][]byte {
@@ -85,7 +92,7 @@ type schedSide struct {
 	p               *party
 	expect          [][]byte          // texts the peer sent, not yet delivered here (in order)
 	acceptedKeys    map[string]string // MAC keys (hex) under which this side accepted a message -> pair "o:t"
-	pendingDisclose map[string]bool   // accepted keys whose pair has been retired and that must be in the next outgoing data message
+	pendingDisclose map[string]string // accepted keys whose pair has been retired and that must be in the next outgoing data message -> what was accepted under them
 	disclosed       map[string]bool
 	seenWire        [][]byte // whole data messages delivered to this side (for replay)
 }
@@ -137,9 +144,9 @@ func (sl *schedLink) inspectOutgoing(p *party, ms []otr3.ValidMessage) {
 			}
 			s.disclosed[h] = true
 		}
-		for h := range s.pendingDisclose {
+		for h, what := range s.pendingDisclose {
 			if !got[h] && !s.disclosed[h] {
-				olog.viol("C09", "used-key-not-disclosed", fmt.Sprintf("%s retired a MAC key it had accepted a message under but the next data message does not disclose it", p.id))
+				olog.viol("C09", "used-key-not-disclosed", fmt.Sprintf("%s retired a MAC key it had accepted a message under but the next data message does not disclose it: receiving MAC key of key pair %s", p.id, what))
 			}
 			delete(s.pendingDisclose, h)
 		}
@@ -161,7 +168,7 @@ func (sl *schedLink) noteRetired(p *party) {
 	}
 	for h := range s.acceptedKeys {
 		if !live[h] {
-			s.pendingDisclose[h] = true
+			s.pendingDisclose[h] = s.acceptedKeys[h]
 			delete(s.acceptedKeys, h)
 		}
 	}
@@ -170,6 +177,39 @@ func (sl *schedLink) noteRetired(p *party) {
 func (sl *schedLink) sendText(p *party, text []byte) {
 	ts, err := sl.w.send(p, text)
 	if err == nil {
+		sl.side(sl.peer(p)).expect = append(sl.side(sl.peer(p)).expect, text)
+	}
+	sl.inspectOutgoing(p, ts)
+	sl.enqueue(p, ts)
+}
+
+// a text together with arbitrary TLVs in one data message flagged IGNORE_UNREADABLE (the hook
+// otr3.VerifSendTLVs, op "sendtlvs" with the text): the text counts as sent like any other
+func (sl *schedLink) sendTextTLVs(p *party, text []byte, types []uint16, values [][]byte) {
+	w := sl.w
+	var ts []otr3.ValidMessage
+	var err error
+	w.sync(p)
+	res := guard(func() string {
+		ts, err = otr3.VerifSendTLVs(p.c, text, types, values)
+		return fmt.Sprintf("send=%s err=%s", msgsStr(ts), otr3.VerifErrClass(err))
+	})
+	if res != "PANIC" {
+		res += " ev=" + p.drainEvents() + " " + otr3.VerifSnapString(p.c)
+	} else {
+		p.events = nil
+		w.dead = true
+	}
+	var args []string
+	for i := range types {
+		args = append(args, fmt.Sprintf("%d %s", types[i], hx(values[i])))
+	}
+	w.g.out.emit(fmt.Sprintf("sendtlvs %s %s %s%s", p.id, hx(text), strings.Join(args, " "), p.tail()), res)
+	w.g.dist["op:sendtlvs"]++
+	if w.dead {
+		return
+	}
+	if err == nil && len(text) > 0 {
 		sl.side(sl.peer(p)).expect = append(sl.side(sl.peer(p)).expect, text)
 	}
 	sl.inspectOutgoing(p, ts)
@@ -289,7 +329,7 @@ func newSchedLink(w *world, g *gen, version int, fragA, fragB int) *schedLink {
 	a := w.newParty(partyCfg{policies: pol, keyIdx: 0, fragSize: fragA, errh: true})
 	b := w.newParty(partyCfg{policies: pol, keyIdx: 1, fragSize: fragB, errh: true})
 	mk := func(p *party) *schedSide {
-		return &schedSide{p: p, acceptedKeys: map[string]string{}, pendingDisclose: map[string]bool{}, disclosed: map[string]bool{}}
+		return &schedSide{p: p, acceptedKeys: map[string]string{}, pendingDisclose: map[string]string{}, disclosed: map[string]bool{}}
 	}
 	sl := &schedLink{link: &link{w: w, a: a, b: b}, sa: mk(a), sb: mk(b), g: g}
 	sl.enqueue(a, []otr3.ValidMessage{w.query(a)})
@@ -560,7 +600,113 @@ func (g *gen) crossingRotations(w *world) {
 		t(B)
 		sl.drain()
 	}
+	for _, s := range []*schedSide{sl.sa, sl.sb} {
+		if len(s.expect) > 0 && !w.dead {
+			olog.viol("C04", "lost", fmt.Sprintf("OTRv%d crossing schedule: %s never received %d text(s) the peer sent, first %q", version, s.p.id, len(s.expect), s.expect[0]))
+		}
+	}
 	g.dist["sched:crossing-rotations"]++
+	g.crossingBurst(w)
+}
+
+// number of C04 oracle hits so far (whether or not they were kept in the capped list)
+func c04Hits() int {
+	n := 0
+	for k, c := range olog.perKey {
+		if strings.HasPrefix(k, "C04|") {
+			n += c
+		}
+	}
+	return n
+}
+
+// C04: in a fresh session (all traffic so far crossed pairwise, so each side holds a newest key the
+// other has not seen yet) one side's message crosses the other's, which then sends a burst still under
+// its old key, acknowledging the newest key of the peer: on the receiving side the sender's key
+// rotates with the first of them, its own key with the second, and the rest of the burst still
+// arrives under the sender's PREVIOUS key, which stays valid until the sender's key rotates again.
+// Schedule sY sX dY sY sY sY dX dX dX dX (Y either side), straight after the key exchange or after
+// two crossing exchanges; or, after one crossing exchange (both know the other's newest key), a plain
+// burst of Y: the first message rotates X's own key, the others still use Y's previous key.
+func (g *gen) crossingBurst(w *world) {
+	w.parties = map[string]*party{}
+	w.dead = false
+	version := 2 + g.r.Intn(2)
+	sl := newSchedLink(w, g, version, 0, 0)
+	if !sl.a.c.IsEncrypted() || !sl.b.c.IsEncrypted() {
+		return
+	}
+	X, Y := sl.a, sl.b
+	toX, toY := false, true
+	if g.r.Intn(2) == 0 {
+		X, Y = Y, X
+		toX, toY = toY, toX
+	}
+	mark := c04Hits()
+	var sched []string
+	var texts [][]byte
+	send := func(p *party) {
+		x := g.cleanText()
+		texts = append(texts, x)
+		sl.sendText(p, x)
+		sched = append(sched, "s:"+p.id)
+	}
+	d := func(to bool, p *party) {
+		sl.deliverOne(to)
+		sl.replayLast(p, 2)
+		sched = append(sched, "d:"+p.id)
+	}
+	cross := func() {
+		send(X)
+		send(Y)
+		d(toY, Y)
+		d(toX, X)
+	}
+	n := 3 + g.r.Intn(3)
+	variant := g.r.Intn(3)
+	switch variant {
+	case 0, 2:
+		for i := 0; i < variant; i++ {
+			cross()
+		}
+		send(Y)
+		send(X)
+		d(toY, Y)
+		for i := 0; i < n; i++ {
+			send(Y)
+		}
+		for i := 0; i < n+1 && !w.dead; i++ {
+			d(toX, X)
+		}
+	case 1:
+		cross()
+		for i := 0; i < n; i++ {
+			send(Y)
+		}
+		for i := 0; i < n && !w.dead; i++ {
+			d(toX, X)
+		}
+	}
+	sl.drain()
+	for i := 0; i < 2 && !w.dead; i++ {
+		sl.sendText(X, g.cleanText())
+		sl.drain()
+		sl.sendText(Y, g.cleanText())
+		sl.drain()
+	}
+	for _, s := range []*schedSide{sl.sa, sl.sb} {
+		if len(s.expect) > 0 && !w.dead {
+			olog.viol("C04", "lost", fmt.Sprintf("OTRv%d crossing burst: %s never received %d text(s) the peer sent, first %q", version, s.p.id, len(s.expect), s.expect[0]))
+		}
+	}
+	if c04Hits() > mark {
+		var ts []string
+		for _, x := range texts {
+			ts = append(ts, fmt.Sprintf("%q", x))
+		}
+		olog.viol("C04", "crossing-burst-lost", fmt.Sprintf("OTRv%d, fresh session, schedule (s:p = p sends the next text, d:p = p receives the oldest message in flight, each delivery followed by replays of accepted messages) %s with texts %s, then two rounds of ping-pong: not every text arrived exactly once, in order (%d oracle hits; %s received %d texts, %s received %d)", version, strings.Join(sched, " "), strings.Join(ts, ","), c04Hits()-mark, X.id, len(X.received), Y.id, len(Y.received)))
+	}
+	g.dist[fmt.Sprintf("sched:crossing-burst:%d", variant)]++
 }
 
 
@@ -668,17 +814,55 @@ func (g *gen) oversizedPayloads(w *world, which int) {
 	}
 	if which == 0 {
 		// every length around the boundary: up to 65531 bytes fit next to the 4 byte usage word
-		for _, n := range []int{65531, 65532, 65533, 65535, 65536, 65532 + g.r.Intn(40)} {
+		// and below it: together with the padding TLV that follows (251 bytes after an empty text) the
+		// TLV section reaches 64 KiB from 65277 bytes of usage data on; whatever the call accepts must
+		// arrive: the peer's ReceivedKeyHandler is called once, with the same usage, data and key
+		lens := []int{65531, 65532, 65533, 65535, 65536, 65532 + g.r.Intn(40),
+			65277, 65270 + g.r.Intn(14), 65284 + g.r.Intn(240), 65400, 65524 + g.r.Intn(8)}
+		for _, n := range lens {
 			data := make([]byte, n)
 			if n > 65531 {
 				copy(data[(4+len(data))%65536:], []byte{0, 1, 0, 0}) // what follows the wrapped length: a disconnect TLV
+			} else {
+				for i := 0; i < 16; i++ {
+					data[g.r.Intn(n)] = byte(g.r.Intn(256))
+				}
 			}
-			_, ts, err := w.extraKey(a, 1, data)
+			usage := uint32(1)
+			if n <= 65531 {
+				usage = g.r.Uint32()
+			}
+			key, ts, err := w.extraKey(a, usage, data)
 			if n <= 65531 && (err != nil || len(ts) == 0) {
 				olog.viol("C17", "legal-usage-data-refused", fmt.Sprintf("UseExtraSymmetricKey with %d bytes of usage data (fits a TLV) failed: %v", n, err))
 			}
-			l.enqueue(a, ts)
+			accepted := err == nil && len(ts) > 0
+			want := fmt.Sprintf("key:%d:%s:%x", usage, hx(data), key)
+			calls, exact := 0, 0
+			for _, m := range ts {
+				_, back, _, _ := w.recv(b, m)
+				for _, e := range strings.Split(strings.Trim(lastEvents, "[]"), ",") {
+					if strings.HasPrefix(e, "key:") {
+						calls++
+						if e == want {
+							exact++
+						}
+					}
+				}
+				l.enqueue(b, back)
+			}
 			l.settle(10)
+			if w.dead {
+				break
+			}
+			olog.ok("C17")
+			if accepted && calls == 0 {
+				olog.viol("C17", "extra-key-tlv-lost", fmt.Sprintf("OTRv%d: UseExtraSymmetricKey(usage %#x, %d bytes of usage data) was accepted by the sender (%d message(s), no error) but the peer's ReceivedKeyHandler was never called: the TLV (length field %d) did not survive the round trip", version, usage, n, len(ts), n+4))
+			} else if accepted && (calls != 1 || exact != 1) {
+				olog.viol("C17", "extra-key-tlv-altered", fmt.Sprintf("OTRv%d: UseExtraSymmetricKey(usage %#x, %d bytes of usage data) accepted by the sender; the peer's ReceivedKeyHandler was called %d time(s), %d of them with the same usage, usage data and key", version, usage, n, calls, exact))
+			} else if !accepted && calls != 0 {
+				olog.viol("C17", "extra-key-tlv-from-refused-call", fmt.Sprintf("OTRv%d: UseExtraSymmetricKey with %d bytes of usage data was refused (%v) but the peer's ReceivedKeyHandler was called %d time(s)", version, n, err, calls))
+			}
 			if !b.c.IsEncrypted() {
 				break
 			}
@@ -743,6 +927,58 @@ func (g *gen) reAkeDisclosure(w *world) {
 	sl.drain()
 }
 
+// C09: a MAC key is used as soon as a message has been accepted under it, whatever happens to the
+// TLVs of that message afterwards. The first data message of a session (the only one its addressee
+// gets under the pair 1:1, and the addressee has not sent under that pair) carries a text, an SMP TLV
+// that cannot be parsed and the flag IGNORE_UNREADABLE: the text is delivered without error. Ordinary
+// ping-pong then retires the pair, and its key must be disclosed like any other (deliverOne /
+// inspectOutgoing: "used-key-not-disclosed").
+func (g *gen) unreadableTlvKeyUse(w *world) {
+	version := 2 + g.r.Intn(2)
+	sl := newSchedLink(w, g, version, 0, 0)
+	if !sl.a.c.IsEncrypted() || !sl.b.c.IsEncrypted() {
+		return
+	}
+	A, B := sl.a, sl.b
+	if g.r.Intn(2) == 0 {
+		A, B = B, A
+	}
+	ty := []uint16{3, 2, 4, 5}[g.r.Intn(4)]
+	val := [][]byte{{0, 0, 0, 1, 0xff}, {0, 0, 0, 5}, {0xff}, {0, 0, 0, 1, 0, 0, 0, 1, 7}}[g.r.Intn(4)]
+	text := g.cleanText()
+	sB := sl.side(B)
+	sl.sendTextTLVs(A, text, []uint16{ty}, [][]byte{val})
+	nBefore := len(B.received)
+	sl.drain()
+	olog.ok("C04")
+	olog.ok("C09")
+	if w.dead {
+		return
+	}
+	if len(B.received) != nBefore+1 || !bytes.Equal(B.received[nBefore], text) {
+		// (not delivered: nothing was accepted, so nothing to disclose; C04 speaks through the queues)
+		g.dist["sched:unreadable-tlv-not-delivered"]++
+	} else if len(sB.acceptedKeys) != 1 {
+		g.dist["sched:unreadable-tlv-key-untracked"]++ // (a gap of this harness, not of the library)
+	}
+	nViol := olog.perKey["C09|used-key-not-disclosed"]
+	for i := 0; i < 3+g.r.Intn(2) && !w.dead; i++ {
+		sl.sendText(B, g.cleanText())
+		sl.drain()
+		sl.sendText(A, g.cleanText())
+		sl.drain()
+	}
+	if olog.perKey["C09|used-key-not-disclosed"] > nViol {
+		olog.viol("C09", "used-key-not-disclosed:unreadable-tlv", fmt.Sprintf("OTRv%d: the first data message of the session, text %q + TLV type %d value %x flagged IGNORE_UNREADABLE, was delivered by %s (no error) under key pair 1:1; after the pair was retired by ordinary ping-pong the MAC key that authenticated it was never disclosed", version, text, ty, val, B.id))
+	}
+	for _, s := range []*schedSide{sl.sa, sl.sb} {
+		if len(s.expect) > 0 && !w.dead {
+			olog.viol("C04", "lost", fmt.Sprintf("%s never received %d text(s) the peer sent, first %q", s.p.id, len(s.expect), s.expect[0]))
+		}
+	}
+	g.dist["sched:unreadable-tlv-key-use"]++
+}
+
 func init() {
 	profiles["sched"] = func(seed int64, n int, out *emitter, extra map[string]interface{}) map[string]int {
 		g := &gen{r: rand.New(rand.NewSource(seed)), out: out, dist: map[string]int{}}
@@ -771,6 +1007,11 @@ func init() {
 				w.parties = map[string]*party{}
 				w.dead = false
 				g.reAkeDisclosure(w)
+			}
+			if i%3 == 0 {
+				w.parties = map[string]*party{}
+				w.dead = false
+				g.unreadableTlvKeyUse(w)
 			}
 		}
 		extra["panics"] = panicCount
